@@ -34,7 +34,10 @@ PROPS = {
         "verus": [("rowfrag", [None])],
         "functions": ["is_ambiguous", "filter.keep_noconst", "filter.keep_noambig", "filter.collect_types", "filter.weight_step",
                       "update_counts.count_pred"],
-        "kani": [("tables", ["oracle_bijective", "is_ambiguous_classification"]), ("wrappers", None)],
+        "kani": [("tables", ["oracle_bijective", "is_ambiguous_classification"]), ("wrappers", None), ("rowfragk", ["count_pred_all_bytes"])],
+        "bounded_quick": [{"group": "rowfragk", "name": "bounded_keep_noconst_len4", "bound": "rows of length <= 4 over 8 representative symbols"},
+                          {"group": "rowfragk", "name": "bounded_keep_noambig_len4", "bound": "rows of length <= 4 over 8 representative symbols"},
+                          {"group": "rowfragk", "name": "bounded_keep_noambig_or_const_len4", "bound": "rows of length <= 4 over 8 representative symbols"}],
         "bounded": [{"group": "ndarr", "name": "bounded_update_counts_2x2", "bound": "2 rows x 2 samples, symbolic bytes, flag and stored counts",
                      "args": ["-Z", "unstable-options", "--cbmc-args", "--unwindset", "memcmp.0:18"], "timeout": 2400}],
     },
@@ -95,6 +98,7 @@ PROPS = {
 KANI_GROUPS = {
     "tables": {"attach": "src/ska_dict/bit_encoding.rs", "file": "tables_harness.rs", "complete": True},
     "rollstep": {"attach": "src/ska_dict/split_kmer.rs", "file": "rollstep_harness.rs", "complete": True},
+    "rowfragk": {"fragment_unit": "rowfrag_k", "file": "rowfrag_harness.rs", "complete": False},
     "wrappers": {"attach": "src/merge_ska_array.rs", "file": "wrappers_harness.rs", "complete": True, "args": ["-Z", "stubbing"]},
     "bitops": {"attach": "src/ska_dict/bit_encoding.rs", "file": "bitops_harness.rs", "complete": True},
     "nthash": {"attach": "src/ska_dict/nthash.rs", "file": "nthash_harness.rs", "complete": True},
